@@ -102,6 +102,12 @@ CHECKS.append(
              "arches within the parent's), its id is unused; then it is registered under its id with the parent link; every refusal raises ValueError/TypeError and leaves variants unchanged. "
              "Lookup is proved on chains of depth 3 with symbolic ids, on the complement of one known finding (three nested variants sharing one id). get_variants is bounded.",
      "note": _NOTE + "; bounded in the NUMBER of siblings (0-1) and arches (1) for add; get_variants recursion and cycle detection bounded only; 1 known finding"})
+CHECKS.append(
+    {"id": "C05", "technique": "contract-based deductive verification: pyvc VCs/SMT on every version-dispatching reader with a SYMBOLIC header version (documented branch for every version, both sides of each threshold) and on both Header readers (version syntax, type gate from 1.1, legacy fallback) + bounded fixtures / down-converted documents",
+     "text": "For Compose, Release, Rpms and treeinfo Release/Tree/Media readers the real deserialize is executed with a symbolic, well-formed version string and the branch readers "
+             "replaced by loggers: exactly the documented reader runs for every version, followed by validation; the Header readers accept exactly well-formed versions whose type matches from 1.1 on "
+             "and keep the document's version; writers emit the current version. Mapping fidelity and idempotence are checked on all 73 shipped fixtures and on down-converted random documents (bounded).",
+     "note": _NOTE + "; thresholds below 1.0 are pinned from the property statement and fixtures (undocumented in the repository); legacy mappings and the 0.0 treeinfo reader are bounded only"})
 _PENDING = "check not built yet in this round (planned, DESIGN.md section 8); listed here only so that the manifest stays valid while the framework is being built"
 NOT_APPLICABLE = [{"property_id": "C%02d" % i, "reason": _PENDING} for i in range(1, 21) if "C%02d" % i not in [c["id"] for c in CHECKS]]
 for _e in ENGINES:
